@@ -35,6 +35,9 @@ From NB Require Import Merge.StrategyTable.
 From NB Require Import Merge.StrategyTableProofs.
 From NB Require Import Merge.Strategies.
 From NB Require Import Merge.StrategiesProofs.
+From Coq Require Import NArith ZArith.
+From NB Require Import Diff.Patch Diff.GenericDiff Diff.StringProofs Diff.C01Proofs Gen.NbConfig Gen.MergeFacts Merge.Apply Merge.MergeProofs Merge.MergeOnesidedObj Merge.MergePipeline.
+Import ListNotations.
 
 Theorem strategy_dispatch_total :
   forall c, In c all_configs -> forall p s, In (p, Some s) (cfg_table c) -> entry_spec p s.
@@ -137,3 +140,19 @@ Theorem clear_all_arm_refuted_as_pinned :
   clear_all_arm APLPinned w_path w_base w_mixed = Err TypeError.
 Proof. exact clear_all_refuted_pinned. Qed.
 Print Assumptions clear_all_arm_refuted_as_pinned.
+
+(* ---- completion of the WHOLE pipeline when only one branch changed (or both made the same change): for all notebook-shaped
+   documents a, b (Diff/C01Proofs.v notebook_shaped: the shape nbformat guarantees as far as the differ reads it), every
+   similarity heuristic, every strategy table / oracle / hook of the merge, and each of the roles ML (local = b, remote = a),
+   MR (the reverse), MB (both = b): the notebook differ returns a diff, the decision maker returns decisions (none conflicted),
+   and the applier returns exactly b -- nothing raises.  The diff of the unchanged branch is taken to be empty. *)
+Theorem merge_completes_when_one_branch_is_unchanged : forall Od n Om cfg St H (who : mode) a b,
+  opcodes_valid Od -> wfj a = true -> wfj b = true -> sources_are_strings a = true ->
+  notebook_shaped a = true -> notebook_shaped b = true -> 4 * depth a + 4 <= n ->
+  exists d decs,
+    diff_ Od nb_config n [] a b = Ok d
+    /\ decide_merge_with_diff Om cfg St H chunks_guard entry_eq_strict conflict_assert_strict a (m_ld who d) (m_rd who d) = Ok decs
+    /\ no_conf decs
+    /\ apply_decisions a decs = Ok b.
+Proof. exact (fun Od n Om cfg St H => notebook_pipeline_completes Od n Om cfg St H chunks_guard entry_eq_strict conflict_assert_strict). Qed.
+Print Assumptions merge_completes_when_one_branch_is_unchanged.
